@@ -1,7 +1,685 @@
-//! C03 — not implemented yet.
-use vcore::Ctx;
+//! C03 — simulator optimisations never change observable behaviour.
+//!
+//! Case: a design (generic `vdesign::gen_design`, pass-triggering shape
+//! templates of `shapes.rs`, or both in one module; flat or wrapped in one /
+//! two child instances) and a stimulus, plus `k` random subsets of the
+//! optimisation switches, all from one `Draw`.
+//!
+//! The switches are process-global, so the check binary re-executes itself
+//! as worker processes (`worker.rs`): one worker per toggle set — baseline
+//! (nothing set), each switch of `toggles::TOGGLES` flipped alone, all off,
+//! all on (stated explicitly), and the drawn subsets — each given the same
+//! case file.  A worker returns, per engine (interpreter, Cranelift JIT, now
+//! and then 4-state / `disable_ff_opt` variants and the `cc` backend), the
+//! value of every output port after every step, the `$display` text, the
+//! verdict of the native `#[test]` bench (when the case has one) and a
+//! structural summary of the built simulator IR.
+//!
+//! Oracle: everything a worker observed equals what the baseline worker
+//! observed on the same engine.  A difference is reported only after the two
+//! toggle sets, re-run alone in fresh processes, reproduce it on the
+//! structurally minimised design; a worker crash / time-out or an engine that
+//! fails to build is *inconclusive* (counted), never a violation.
+//!
+//! Non-trivial: the structural summary (statements of the optimised
+//! `ProtoModule`, buffer sizes, comb passes, fused offsets, cone segments,
+//! opcode histogram of the generated Cranelift IR) of some single-switch
+//! worker differs from the baseline's — the pass really fired on this design.
+//! The per-switch "had an effect" histogram is in the evidence
+//! (`effect/<switch>`, classes `effect:<switch>` / `pass_effect:<pass>`).
 
-pub fn run(_ctx: &Ctx) {
-    println!("INCONCLUSIVE property=C03: check not implemented");
-    std::process::exit(2);
+use crate::shapes::{self, Sb};
+use crate::toggles::{Level, TOGGLES, ToggleSet, scrub_list};
+use crate::worker::{CLIF_BEGIN, CLIF_END, RESULT_MARK, stim_json};
+use std::collections::{BTreeMap, BTreeSet};
+use std::io::Read;
+use std::path::{Path, PathBuf};
+use std::process::{Command, Stdio};
+use std::time::{Duration, Instant};
+use vcore::{CaseCfg, Ctx, Draw, Outcome, Value, hash_str, json};
+use vdesign::*;
+
+// ----------------------------------------------------------------------
+// workers
+// ----------------------------------------------------------------------
+
+pub struct WorkerOut {
+    pub result: Value,
+    /// key (`clif2`, `clif4`) → opcode histogram of the dumped Cranelift IR
+    pub clif: BTreeMap<String, BTreeMap<String, u64>>,
+}
+
+fn aot_dir() -> PathBuf {
+    PathBuf::from(format!("{}/c03-aot-{}", vcore::util::work_root(), std::process::id()))
+}
+
+/// Opcode histogram of a Cranelift IR dump (robust against value numbering
+/// and against addresses, which differ between processes).
+fn clif_histogram(lines: &[&str]) -> BTreeMap<String, u64> {
+    let mut h: BTreeMap<String, u64> = BTreeMap::new();
+    for l in lines {
+        let t = l.trim();
+        if t.is_empty() {
+            continue;
+        }
+        if t.starts_with("function ") {
+            *h.entry("#function".into()).or_insert(0) += 1;
+            continue;
+        }
+        if t.starts_with("block") {
+            *h.entry("#block".into()).or_insert(0) += 1;
+            if t.ends_with("cold:") {
+                *h.entry("#cold".into()).or_insert(0) += 1;
+            }
+            continue;
+        }
+        if t.starts_with("@@C03 CLIF-ERR") {
+            *h.entry("#error".into()).or_insert(0) += 1;
+            continue;
+        }
+        // `v3 = iadd v1, v2` / `v3, v4 = isplit v1` / `store.i64 v1, v2+8` / `brif v1, block1, block2`
+        let rhs = match t.find(" = ") {
+            Some(i) if t.starts_with('v') => &t[i + 3..],
+            _ => t,
+        };
+        let op: String = rhs.chars().take_while(|c| c.is_ascii_alphanumeric() || *c == '_').collect();
+        if op.is_empty() || op == "Cranelift" || op == "sig0" || op.starts_with("sig") || op.starts_with("ss") || op.starts_with("gv") || op.starts_with("fn") {
+            continue;
+        }
+        *h.entry(op).or_insert(0) += 1;
+    }
+    h
+}
+
+pub fn run_worker(case_file: &Path, set: &ToggleSet) -> Result<WorkerOut, String> {
+    let exe = std::env::current_exe().map_err(|e| e.to_string())?;
+    let mut c = Command::new(exe);
+    c.arg("c03-worker").arg(case_file).current_dir(vcore::util::work_root()).stdin(Stdio::null()).stdout(Stdio::piped());
+    if std::env::var("C03_WORKER_STDERR").is_ok() {
+        c.stderr(Stdio::inherit());
+    } else {
+        c.stderr(Stdio::null());
+    }
+    for k in scrub_list() {
+        c.env_remove(k);
+    }
+    for (k, v) in set.env() {
+        c.env(k, v);
+    }
+    c.env("VERYL_AOT_CACHE_DIR", aot_dir());
+    let mut child = c.spawn().map_err(|e| format!("spawn: {e}"))?;
+    let mut so = child.stdout.take().unwrap();
+    let reader = std::thread::spawn(move || {
+        let mut b = Vec::new();
+        let _ = so.read_to_end(&mut b);
+        String::from_utf8_lossy(&b).into_owned()
+    });
+    let limit = Duration::from_secs(std::env::var("C03_WORKER_TIMEOUT").ok().and_then(|s| s.parse().ok()).unwrap_or(180));
+    let start = Instant::now();
+    let status = loop {
+        match child.try_wait() {
+            Ok(Some(s)) => break s,
+            Ok(None) => {
+                if start.elapsed() > limit {
+                    let _ = child.kill();
+                    let _ = child.wait();
+                    let _ = reader.join();
+                    return Err("timeout".into());
+                }
+                std::thread::sleep(Duration::from_millis(2));
+            }
+            Err(e) => return Err(format!("wait: {e}")),
+        }
+    };
+    let out = reader.join().unwrap_or_default();
+    if !status.success() {
+        use std::os::unix::process::ExitStatusExt;
+        let why = out.lines().find(|l| l.starts_with("@@C03 WORKER-PANIC")).unwrap_or("").to_string();
+        return Err(format!("worker died (code {:?}, signal {:?}) {why}", status.code(), status.signal()));
+    }
+    let mut result = None;
+    let mut clif: BTreeMap<String, BTreeMap<String, u64>> = BTreeMap::new();
+    let mut cur: Option<(String, Vec<&str>)> = None;
+    for l in out.lines() {
+        if let Some(k) = l.strip_prefix(CLIF_BEGIN) {
+            cur = Some((k.trim().to_string(), vec![]));
+        } else if l.starts_with(CLIF_END) {
+            if let Some((k, ls)) = cur.take() {
+                clif.insert(k, clif_histogram(&ls));
+            }
+        } else if let Some(j) = l.strip_prefix(RESULT_MARK) {
+            result = serde_json::from_str::<Value>(j).ok();
+        } else if let Some((_, ls)) = cur.as_mut() {
+            ls.push(l);
+        }
+    }
+    match result {
+        Some(result) => Ok(WorkerOut { result, clif }),
+        None => Err("worker printed no result".into()),
+    }
+}
+
+// ----------------------------------------------------------------------
+// cases
+// ----------------------------------------------------------------------
+
+pub struct Case {
+    pub design: Design,
+    pub stim: Stimulus,
+    pub classes: BTreeSet<String>,
+    pub excluded: BTreeMap<String, u64>,
+    pub engines: Vec<String>,
+    pub subsets: Vec<ToggleSet>,
+}
+
+fn cc_ok() -> bool {
+    static V: std::sync::OnceLock<bool> = std::sync::OnceLock::new();
+    *V.get_or_init(|| std::env::var("C03_NO_CC").is_err() && veryl_simulator::backend::aot_c::cc_available())
+}
+
+fn pick_shapes(d: &mut Draw, n: usize, allow_cone: bool) -> Vec<&'static str> {
+    let mut v = vec![];
+    for _ in 0..n {
+        // the last entry of SHAPES is the (large) cone template
+        let k = shapes::SHAPES.len() - 1;
+        let s = shapes::SHAPES[d.below(k as u32) as usize];
+        v.push(s);
+    }
+    if allow_cone && d.chance(1, 14) {
+        v.clear();
+        v.push("cone");
+        if d.bool() {
+            v.push(shapes::SHAPES[d.below(shapes::SHAPES.len() as u32 - 1) as usize]);
+        }
+    }
+    v
+}
+
+pub fn gen_case(d: &mut Draw, n_subsets: usize) -> Case {
+    let mut classes: BTreeSet<String> = BTreeSet::new();
+    let mut excluded: BTreeMap<String, u64> = BTreeMap::new();
+    let mode = d.weighted(&[3, 4, 4]);
+    let design = match mode {
+        0 => {
+            // generic design, now and then with shapes added to its top module
+            let mut cfg = GenCfg::default();
+            cfg.display = d.chance(1, 3);
+            cfg.unguarded_per_mille = 20;
+            let g = gen_design(d, &cfg);
+            classes.extend(g.classes.iter().cloned());
+            excluded = g.excluded.clone();
+            classes.insert("gen:generic".into());
+            let mut design = g.design;
+            if d.bool() {
+                let n = 1 + d.below(2) as usize;
+                let top = design.top;
+                let m = std::mem::take(&mut design.modules[top]);
+                let mut sb = Sb::new(m, false);
+                for s in pick_shapes(d, n, false) {
+                    shapes::apply(&mut sb, d, s);
+                }
+                let (m, c) = sb.finish();
+                design.modules[top] = m;
+                classes.extend(c);
+                classes.insert("gen:generic+shapes".into());
+            }
+            design
+        }
+        1 => {
+            let mut sb = Sb::new(
+                Module {
+                    name: "Top".into(),
+                    ..Default::default()
+                },
+                false,
+            );
+            let n_in = d.range(2, 5) as usize;
+            sb.ensure_inputs(d, n_in);
+            let n = 1 + d.below(4) as usize;
+            for s in pick_shapes(d, n, true) {
+                shapes::apply(&mut sb, d, s);
+            }
+            let (m, c) = sb.finish();
+            classes.extend(c);
+            classes.insert("gen:shapes_flat".into());
+            Design { modules: vec![m], top: 0 }
+        }
+        _ => {
+            let mut sb = Sb::new(
+                Module {
+                    name: "Shp".into(),
+                    ..Default::default()
+                },
+                true,
+            );
+            let n_in = d.range(2, 5) as usize;
+            sb.ensure_inputs(d, n_in);
+            let n = 1 + d.below(4) as usize;
+            for s in pick_shapes(d, n, true) {
+                shapes::apply(&mut sb, d, s);
+            }
+            let (m, c) = sb.finish();
+            classes.extend(c);
+            let copies = 1 + d.below(2) as usize;
+            classes.insert(format!("gen:shapes_child_x{copies}"));
+            shapes::wrap(d, m, copies)
+        }
+    };
+    let cycles = 6 + d.below(9) as usize;
+    let mut stim = gen_stimulus(d, &design, cycles);
+    if d.chance(1, 3) || classes.contains("shape:big_cone") {
+        // hold all inputs over runs of steps (a gated cone can only be skipped then)
+        for i in 1..stim.steps.len() {
+            if d.chance(1, 2) {
+                stim.steps[i].values = stim.steps[i - 1].values.clone();
+            }
+        }
+        classes.insert("stim:held_inputs".into());
+    }
+    let mut engines = vec!["interp".to_string(), "jit".to_string()];
+    if d.chance(1, 4) {
+        engines.push(if d.bool() { "jit+4st" } else { "interp+4st" }.to_string());
+    }
+    if d.chance(1, 8) {
+        engines.push(if d.bool() { "jit+noffopt" } else { "interp+noffopt" }.to_string());
+    }
+    if cc_ok() && d.chance(1, 8) {
+        engines.push("cc".to_string());
+    }
+    let subsets = (0..n_subsets).map(|_| ToggleSet::draw(d)).collect();
+    for e in &engines {
+        classes.insert(format!("engine:{e}"));
+    }
+    Case {
+        design,
+        stim,
+        classes,
+        excluded,
+        engines,
+        subsets,
+    }
+}
+
+// ----------------------------------------------------------------------
+// comparison
+// ----------------------------------------------------------------------
+
+#[derive(Clone, Debug, PartialEq, Eq)]
+pub struct Diff {
+    pub engine: String,
+    /// `port-value` | `display` | `verdict` | `engine-error`
+    pub what: String,
+    pub detail: String,
+}
+
+fn engine_family(label: &str) -> String {
+    let base = label.split('+').next().unwrap_or(label).to_string();
+    if label.contains("4st") { format!("{base}4") } else { base }
+}
+
+/// What the toggle-set worker observed differently from the baseline worker.
+pub fn compare(base: &Value, other: &Value, outputs: &[PortSpec]) -> Vec<Diff> {
+    let mut out = vec![];
+    let Some(runs) = other["runs"].as_object() else {
+        return out;
+    };
+    for (engine, o) in runs {
+        let b = &base["runs"][engine];
+        if b.is_null() {
+            continue;
+        }
+        let (bok, ook) = (b["ok"].as_bool().unwrap_or(false), o["ok"].as_bool().unwrap_or(false));
+        if bok != ook {
+            out.push(Diff {
+                engine: engine.clone(),
+                what: "engine-error".into(),
+                detail: format!("baseline: {}; toggled: {}", if bok { "ran".to_string() } else { b["err"].to_string() }, if ook { "ran".to_string() } else { o["err"].to_string() }),
+            });
+            continue;
+        }
+        if !bok {
+            continue;
+        }
+        let (bs, os) = (b["steps"].as_array(), o["steps"].as_array());
+        let mut found = false;
+        if let (Some(bs), Some(os)) = (bs, os) {
+            'steps: for (si, (br, or)) in bs.iter().zip(os.iter()).enumerate() {
+                let (Some(br), Some(or)) = (br.as_array(), or.as_array()) else { continue };
+                for (oi, (x, y)) in br.iter().zip(or.iter()).enumerate() {
+                    if x != y {
+                        out.push(Diff {
+                            engine: engine.clone(),
+                            what: "port-value".into(),
+                            detail: format!(
+                                "output {} after step {si}: baseline {}, toggled {} (hex value[/xz mask])",
+                                outputs.get(oi).map(|p| p.name.as_str()).unwrap_or("?"),
+                                x.as_str().unwrap_or("?"),
+                                y.as_str().unwrap_or("?")
+                            ),
+                        });
+                        found = true;
+                        break 'steps;
+                    }
+                }
+            }
+            if !found && bs.len() != os.len() {
+                out.push(Diff {
+                    engine: engine.clone(),
+                    what: "port-value".into(),
+                    detail: format!("number of steps: baseline {}, toggled {}", bs.len(), os.len()),
+                });
+                found = true;
+            }
+        }
+        if !found && b["display"] != o["display"] {
+            out.push(Diff {
+                engine: engine.clone(),
+                what: "display".into(),
+                detail: format!("$display text: baseline {}, toggled {}", b["display"], o["display"]),
+            });
+        }
+        // native test bench
+        let (bt, ot) = (&base["tb"][engine], &other["tb"][engine]);
+        if !bt.is_null() && !ot.is_null() {
+            let (bok, ook) = (bt["ok"].as_bool().unwrap_or(false), ot["ok"].as_bool().unwrap_or(false));
+            if bok != ook {
+                out.push(Diff {
+                    engine: engine.clone(),
+                    what: "engine-error".into(),
+                    detail: format!("test bench: baseline {}, toggled {}", bt, ot),
+                });
+            } else if bok {
+                if bt["verdict"] != ot["verdict"] {
+                    out.push(Diff {
+                        engine: engine.clone(),
+                        what: "verdict".into(),
+                        detail: format!("test verdict: baseline {}, toggled {}", bt["verdict"], ot["verdict"]),
+                    });
+                } else if bt["display"] != ot["display"] {
+                    out.push(Diff {
+                        engine: engine.clone(),
+                        what: "display".into(),
+                        detail: format!("test bench $display text: baseline {}, toggled {}", bt["display"], ot["display"]),
+                    });
+                }
+            }
+        }
+    }
+    out
+}
+
+/// Structural summary of one worker (IR part + Cranelift histograms).
+fn summary_of(w: &WorkerOut) -> Value {
+    json!({"ir": w.result["sum"], "clif": w.clif})
+}
+
+fn case_json(text: &str, stim: &Stimulus, engines: &[String], tb: Option<&str>, summary: bool) -> Value {
+    json!({"veryl": text, "top": "Top", "stimulus": stim_json(stim), "engines": engines, "tb": tb, "summary": summary})
+}
+
+fn write_case(dir: &Path, name: &str, v: &Value) -> PathBuf {
+    let p = dir.join(name);
+    std::fs::write(&p, v.to_string()).expect("write case file");
+    p
+}
+
+/// Re-run baseline and `set` alone on (text, stim, engine): the difference of kind `what`, if it is there.
+fn rerun_pair(dir: &Path, tag: &str, text: &str, stim: &Stimulus, engine: &str, tb: Option<&str>, set: &ToggleSet, what: &str) -> Option<Diff> {
+    let f = write_case(dir, &format!("{tag}.json"), &case_json(text, stim, &[engine.to_string()], tb, false));
+    let b = run_worker(&f, &ToggleSet::baseline()).ok()?;
+    let o = run_worker(&f, set).ok()?;
+    if b.result["analyze"] != "ok" || o.result["analyze"] != "ok" {
+        return None;
+    }
+    compare(&b.result, &o.result, &stim.outputs).into_iter().find(|d| d.what == what && d.engine == engine)
+}
+
+fn pass_names(set_off: &[usize]) -> String {
+    let mut p: Vec<&str> = vec![];
+    for &i in set_off {
+        if !p.contains(&TOGGLES[i].pass) {
+            p.push(TOGGLES[i].pass);
+        }
+    }
+    p.join("+")
+}
+
+pub struct Tb {
+    pub name: String,
+}
+
+/// The verdict of one case.
+pub fn one_case(ctx: &Ctx, d: &mut Draw, n_subsets: usize) -> Outcome {
+    let case = gen_case(d, n_subsets);
+    evaluate(ctx, &case)
+}
+
+pub fn evaluate(ctx: &Ctx, case: &Case) -> Outcome {
+    let text = print_design(&case.design);
+    let stim = &case.stim;
+    if std::env::var("C03_DUMP").is_ok() {
+        println!("{text}// stimulus: {}\n// engines: {:?}", stim_json(stim), case.engines);
+    }
+    let sc = vcore::util::Scratch::new("c03");
+    let all = write_case(&sc.path, "case.json", &case_json(&text, stim, &case.engines, None, true));
+    // Cranelift-level switches cannot act on the interpreter
+    let clif_engines: Vec<String> = case.engines.iter().filter(|e| !e.starts_with("interp")).cloned().collect();
+    let clif_file = write_case(&sc.path, "case-clif.json", &case_json(&text, stim, &clif_engines, None, true));
+
+    // ---- baseline
+    let base = match run_worker(&all, &ToggleSet::baseline()) {
+        Ok(b) => b,
+        Err(e) => {
+            ctx.note_add("inconclusive/baseline_worker_failed", 1);
+            let e: String = e.chars().filter(|c| !c.is_ascii_digit()).take(60).collect();
+            return Outcome::skip(format!("inconclusive: baseline worker failed ({e})"));
+        }
+    };
+    if base.result["analyze"] != "ok" {
+        let code = base.result["analyze"]["code"].as_str().unwrap_or("?").to_string();
+        let stage = base.result["analyze"]["stage"].as_str().unwrap_or("?").to_string();
+        if std::env::var("C03_SHOW_REJECTS").is_ok() {
+            println!("REJECTED {}\n{text}", base.result["analyze"]["rejected"]);
+        }
+        return Outcome::skip(format!("generated design rejected by the analyzer ({stage}:{code})"));
+    }
+    let runs = base.result["runs"].as_object().cloned().unwrap_or_default();
+    let ok_engines: Vec<String> = runs.iter().filter(|(_, r)| r["ok"].as_bool().unwrap_or(false)).map(|(k, _)| k.clone()).collect();
+    if ok_engines.is_empty() {
+        let msg: String = runs.values().next().map(|r| r["err"].to_string()).unwrap_or_default().chars().filter(|c| !c.is_ascii_digit()).take(60).collect();
+        return Outcome::skip(format!("no engine runs the design under the default switches ({msg})"));
+    }
+    let base_sum = summary_of(&base);
+
+    // ---- every toggle set
+    let mut sets: Vec<ToggleSet> = (0..TOGGLES.len()).map(ToggleSet::single).collect();
+    sets.push(ToggleSet::all_off());
+    sets.push(ToggleSet::all_on());
+    sets.extend(case.subsets.iter().cloned());
+    let mut diffs: Vec<(ToggleSet, Diff)> = vec![];
+    let mut effects: BTreeSet<usize> = BTreeSet::new();
+    let mut inconclusive = 0u64;
+    let mut comparisons = 0u64;
+    let mut error_diffs = 0u64;
+    for set in &sets {
+        let clif_only = set.off.len() == 1 && TOGGLES[set.off[0]].level == Level::Clif;
+        if clif_only && clif_engines.is_empty() {
+            continue;
+        }
+        let w = match run_worker(if clif_only { &clif_file } else { &all }, set) {
+            Ok(w) => w,
+            Err(_) => {
+                inconclusive += 1;
+                continue;
+            }
+        };
+        if w.result["analyze"] != "ok" {
+            inconclusive += 1;
+            continue;
+        }
+        comparisons += w.result["runs"].as_object().map(|m| m.len()).unwrap_or(0) as u64;
+        for df in compare(&base.result, &w.result, &stim.outputs) {
+            if df.what == "engine-error" {
+                error_diffs += 1;
+                if std::env::var("C03_SHOW_ERRORS").is_ok() {
+                    println!("ENGINE-ERROR-DIFF [{}] {} {}\n{text}", set.label, df.engine, df.detail);
+                }
+                continue;
+            }
+            diffs.push((set.clone(), df));
+        }
+        if set.off.len() == 1 && !set.explicit {
+            let s = summary_of(&w);
+            let differs = if clif_only { s["clif"] != base_sum["clif"] } else { s != base_sum };
+            if differs {
+                effects.insert(set.off[0]);
+            }
+        } else if set.label == "all_on" && summary_of(&w) != base_sum {
+            // the summary must be a function of the switches only
+            ctx.note_add("self_test/summary_differs_without_a_switch", 1);
+        }
+    }
+    ctx.note_add("comparisons", comparisons);
+    if inconclusive > 0 {
+        ctx.note_add("inconclusive/toggle_worker_failed", inconclusive);
+    }
+    if error_diffs > 0 {
+        ctx.note_add("inconclusive/engine_fails_under_one_set_only", error_diffs);
+    }
+
+    if diffs.is_empty() {
+        let mut classes: Vec<String> = case.classes.iter().cloned().collect();
+        let mut passes: BTreeSet<&str> = BTreeSet::new();
+        for &i in &effects {
+            classes.push(format!("effect:{}", TOGGLES[i].name));
+            passes.insert(TOGGLES[i].pass);
+            ctx.note_add(&format!("effect/{}", TOGGLES[i].name), 1);
+        }
+        for p in passes {
+            classes.push(format!("pass_effect:{p}"));
+        }
+        for (k, n) in &case.excluded {
+            if *n > 0 {
+                classes.push(format!("excluded:{k}"));
+            }
+        }
+        if case.design.top().has_ff() || case.design.modules.iter().any(|m| m.has_ff()) {
+            classes.push("design:sequential".into());
+        }
+        if ok_engines.iter().any(|e| !base.result["runs"][e]["display"].as_str().unwrap_or("").is_empty()) {
+            classes.push("display:text_compared".into());
+        }
+        let sample = format!("{text}// stimulus: {}\n// switches with a structural effect: {:?}", stim_json(stim), effects.iter().map(|&i| TOGGLES[i].name).collect::<Vec<_>>());
+        return Outcome::pass(hash_str(&format!("{text}{}", stim_json(stim))), !effects.is_empty(), classes, sample);
+    }
+
+    // ---- a difference: reproduce, attribute, minimise, reproduce again
+    let (set, df) = diffs[0].clone();
+    let tb: Option<&str> = None;
+    if rerun_pair(&sc.path, "confirm", &text, stim, &df.engine, tb, &set, &df.what).is_none() {
+        ctx.note_add("inconclusive/difference_not_reproduced", 1);
+        return Outcome::skip("inconclusive: a difference did not reproduce when the two toggle sets were re-run alone");
+    }
+    // smallest responsible subset of switches
+    let mut culprit: Vec<usize> = set.off.clone();
+    let explicit = set.explicit;
+    if culprit.len() > 1 {
+        if let Some(&single) = culprit.iter().find(|&&i| rerun_pair(&sc.path, "attr", &text, stim, &df.engine, tb, &ToggleSet::single(i), &df.what).is_some()) {
+            culprit = vec![single];
+        } else {
+            let mut i = 0;
+            while i < culprit.len() && culprit.len() > 1 {
+                let mut t = culprit.clone();
+                t.remove(i);
+                if rerun_pair(&sc.path, "attr", &text, stim, &df.engine, tb, &ToggleSet::subset(t.clone(), false), &df.what).is_some() {
+                    culprit = t;
+                } else {
+                    i += 1;
+                }
+            }
+        }
+    }
+    let cset = if culprit.is_empty() {
+        ToggleSet::all_on()
+    } else if culprit.len() == 1 && !explicit {
+        ToggleSet::single(culprit[0])
+    } else {
+        ToggleSet::subset(culprit.clone(), false)
+    };
+    let budget = std::env::var("C03_MIN_BUDGET").ok().and_then(|s| s.parse().ok()).unwrap_or(150usize);
+    let mut n = 0;
+    let mut pred = |dsg: &Design, st: &Stimulus| {
+        n += 1;
+        let t = print_design(dsg);
+        rerun_pair(&sc.path, &format!("min{n}"), &t, st, &df.engine, tb, &cset, &df.what).is_some()
+    };
+    let (md, ms) = if pred(&case.design, stim) { minimize::minimize(&case.design, stim, &mut pred, budget) } else { (case.design.clone(), stim.clone()) };
+    let mtext = print_design(&md);
+    let Some(mdf) = rerun_pair(&sc.path, "final", &mtext, &ms, &df.engine, tb, &cset, &df.what) else {
+        ctx.note_add("inconclusive/difference_not_reproduced", 1);
+        return Outcome::skip("inconclusive: a difference did not reproduce on the minimised design");
+    };
+    let pass = if culprit.is_empty() { "explicit_defaults".to_string() } else { pass_names(&culprit) };
+    let sig = format!("{pass}:{}/{}", df.what, engine_family(&df.engine));
+    let msg = format!(
+        "switching optimisations changes observable behaviour\n  engine: {}\n  environment: {}  (against: no VERYL_* variable set)\n  found under toggle set: {}\n  {}\n{mtext}// stimulus: {}",
+        df.engine,
+        cset.env_text(),
+        set.label,
+        mdf.detail,
+        stim_json(&ms)
+    );
+    Outcome::fail(
+        sig,
+        msg,
+        json!({"veryl": mtext, "top": "Top", "stimulus": stim_json(&ms), "engine": df.engine,
+               "env": cset.env().iter().map(|(k, v)| format!("{k}={v}")).collect::<Vec<_>>(),
+               "what": df.what, "detail": mdf.detail, "found_under": set.label}),
+    )
+}
+
+/// Replay of a recorded reproducer (text + stimulus + engine + env).
+fn replay_recorded(p: &Value) -> Outcome {
+    let text = p["veryl"].as_str().unwrap_or("").to_string();
+    let stim = crate::worker::stim_from(&p["stimulus"]);
+    let engine = p["engine"].as_str().unwrap_or("jit").to_string();
+    let what = p["what"].as_str().unwrap_or("port-value").to_string();
+    let mut off = vec![];
+    for e in p["env"].as_array().cloned().unwrap_or_default() {
+        let e = e.as_str().unwrap_or("").to_string();
+        if let Some((k, v)) = e.split_once('=')
+            && let Some(i) = TOGGLES.iter().position(|t| t.env == k && t.off == v)
+        {
+            off.push(i);
+        }
+    }
+    let set = if off.len() == 1 { ToggleSet::single(off[0]) } else { ToggleSet::subset(off.clone(), false) };
+    let sc = vcore::util::Scratch::new("c03r");
+    match rerun_pair(&sc.path, "rec", &text, &stim, &engine, None, &set, &what) {
+        Some(df) => Outcome::fail(
+            format!("{}:{}/{}", pass_names(&off), what, engine_family(&engine)),
+            format!("recorded reproducer still differs\n  engine: {engine}\n  environment: {}\n  {}\n{text}", set.env_text(), df.detail),
+            p.clone(),
+        ),
+        None => Outcome::pass(hash_str(&text), true, vec!["recorded".into()], text),
+    }
+}
+
+pub fn run(ctx: &Ctx) {
+    let _ = std::fs::create_dir_all(aot_dir());
+    ctx.note("switches", json!(TOGGLES.iter().map(|t| format!("{}={} ({})", t.env, t.off, t.pass)).collect::<Vec<_>>()));
+    ctx.run_payloads("recorded", replay_recorded);
+    let n = std::env::var("C03_CASES").ok().and_then(|s| s.parse::<usize>().ok()).unwrap_or(ctx.scale(160, 3000));
+    let k = ctx.scale(2, 4);
+    let threads = std::env::var("C03_THREADS").ok().and_then(|s| s.parse::<usize>().ok()).unwrap_or(0);
+    let cfg = CaseCfg::cases(n).choices(10_000).shrink_iters(std::env::var("C03_SHRINK").ok().and_then(|s| s.parse().ok()).unwrap_or(6)).timeout_s(1500).threads(threads);
+    ctx.run("designs", cfg, |d| one_case(ctx, d, k));
+    let _ = std::fs::remove_dir_all(aot_dir());
+    ctx.assume("a worker process that crashes or exceeds its time limit, an engine that fails to build / panics under one toggle set only, and a difference that does not reproduce when the two toggle sets are re-run alone are inconclusive (counted under inconclusive/*), never violations");
+    ctx.assume("values of internal variables (Simulator::get_var) are not compared: fused and dead variables legitimately keep stale storage; the property speaks of ports, $display and verdicts");
+    ctx.assume("the switches compared are those of the passes the property names, with their sub-levers (toggles.rs); WIDE_MASK_ELIDE / WIDE_DYNSEL / COLD_IF_TRUE / TB_SETTLE_FILTER and the AOT-C emitter's own levers are not flipped");
+    ctx.finish(
+        "exploration",
+        "generic vdesign designs and pass-triggering shape templates (single-reader chains, cheap multi-reader / CSE, field stores, dead variables, always_comb version chains, >= 8-arm selector decoders, per-bit rows and lanes, >= 4-arm case/switch/else-if, guarded $display in always_ff, repeated loads, >= 300-statement cones; flat, added to a generic top, or in 1-2 child instances) x stimulus of 6-14 cycles after a reset window; one worker process per toggle set (baseline, each switch alone, all off, all on, k drawn subsets) on interpreter and JIT (4-state / noffopt / cc variants on a fraction); non-trivial = the structural summary of the built IR (optimised ProtoModule statements, buffer sizes, comb passes, fused offsets, cone segments, Cranelift opcode histogram) of some single-switch worker differs from the baseline's, i.e. the pass fired on that design; distinct by text + stimulus",
+    );
 }
